@@ -1,6 +1,7 @@
 package tree
 
 import (
+	"regexp"
 	"strconv"
 	"strings"
 
@@ -113,12 +114,9 @@ func (cs *CommandStatement) rearrange() {
 }
 
 func (cs *CommandStatement) split(str string) []*CommandStatementElement {
-	split := strings.Split(str, " ")
+	split := strings.FieldsFunc(str, func(r rune) bool { return r == ' ' || r == '\t' })
 	elements := make([]*CommandStatementElement, 0, len(split))
 	for _, word := range split {
-		if word == "" {
-			continue
-		}
 		value := valueFromCommandText(word)
 		elements = append(elements, &CommandStatementElement{
 			Expression: &Expression{Value: value},
@@ -135,7 +133,9 @@ func valueFromCommandText(commandText string) *variable.Value {
 		return variable.NewBoolean(false)
 	}
 
-	if commandText[0] == '+' { // see Antlr grammar, numbers don't start with + even though Go would be happy to parse them
+	// see Antlr grammar: numbers are plain decimal literals, even though Go would be happy to parse
+	// many other words as numbers ("+1", "1e3", ".5", "0x10", "1_000", "inf", "nan"...)
+	if !commandNumberPattern.MatchString(commandText) {
 		return variable.NewString(commandText)
 	}
 	numberValue, err := strconv.ParseFloat(commandText, 64)
@@ -144,6 +144,8 @@ func valueFromCommandText(commandText string) *variable.Value {
 	}
 	return variable.NewString(commandText)
 }
+
+var commandNumberPattern = regexp.MustCompile(`^-?[0-9]+(\.[0-9]+)?$`)
 
 type CallStatement struct {
 	*FunctionCall
